@@ -19,6 +19,11 @@ def _snap(o):
 
 
 class _Logged:
+    def __init__(self):
+        # the parameter-less initialisation of the runtime object (never called for configuration objects)
+        super().__init__()
+        LOG.append(("init", id(self), _snap(self)))
+
     def __post_init__(self):
         LOG.append(("post", id(self), _snap(self)))
 
